@@ -1247,32 +1247,73 @@ func ruleExpire(r *Report) {
 		h.Check(ok && n >= 1, name, r.P.Pos(fn.Pos()), "true ⇐ present ∧ deadline ≠ 0", "an expiration is reported for a row that has none stored or whose stored deadline is 0 (never expires): the cleanup would delete it")
 	}
 	hw := r.Rule("C17.write", "def-use", "a positive time-to-live stores now+ttl, a non-positive one stores 0 (never); Extend merges the delta into the stored deadline", 3)
-	if fn := r.Anchor("column.writeTTL"); fn != nil {
-		okPos, okZero := false, false
-		for _, ret := range returnsOf(fn) {
+	// returnsDeadline: result k of f is now+ttl on the returns where 0 < ttl and 0 on the others
+	var returnsDeadline func(f *ssa.Function, k int, ttl *ssa.Parameter, depth int) bool
+	// deadlineValue: v (a value of function g, whose time-to-live parameter is ttl) is such a result:
+	// of g's own conditional, or of a helper that is handed the ttl
+	deadlineValue := func(v ssa.Value, ttl *ssa.Parameter, depth int) bool {
+		n := norm(v)
+		k := 0
+		if ex, isEx := n.(*ssa.Extract); isEx {
+			k, n = ex.Index, ex.Tuple
+		}
+		call, isCall := n.(*ssa.Call)
+		if !isCall || depth > 2 {
+			return false
+		}
+		sc := call.Call.StaticCallee()
+		if sc == nil || !isHelper(sc) {
+			return false
+		}
+		hf := originOf(sc)
+		for i, a := range call.Call.Args {
+			if sameExpr(a, ttl) && i < len(hf.Params) {
+				return returnsDeadline(hf, k, hf.Params[i], depth+1)
+			}
+		}
+		return false
+	}
+	returnsDeadline = func(fn *ssa.Function, k int, ttl *ssa.Parameter, depth int) bool {
+		okPos, okZero, viaHelper := false, false, true
+		rets := returnsOf(fn)
+		for _, ret := range rets {
+			if k >= len(ret.Results) {
+				return false
+			}
+			if !deadlineValue(ret.Results[k], ttl, depth) {
+				viaHelper = false
+			}
 			pos := edgeGuarded(ret.Block(), func(c ssa.Value) (bool, bool) {
 				// 0 < ttl, in any spelling
-				if x, y, neg, ok := lessThan(c); ok && sameExpr(y, fn.Params[0]) {
+				if x, y, neg, ok := lessThan(c); ok && sameExpr(y, ttl) {
 					if z, isC := constInt(x); isC && z == 0 {
 						return true, !neg
 					}
 				}
+				if x, y, neg, ok := lessThan(c); ok && sameExpr(x, ttl) {
+					if z, isC := constInt(y); isC && z == 1 {
+						return true, neg // ttl < 1
+					}
+				}
 				return false, false
 			})
-			if z, isC := constInt(ret.Results[0]); isC && z == 0 {
+			if z, isC := constInt(ret.Results[k]); isC && z == 0 {
 				if !pos {
 					okZero = true
 				}
 			} else if pos {
-				dep := dependsOn(ret.Results[0], func(v ssa.Value) bool { return v == ssa.Value(fn.Params[0]) }, 8) &&
-					dependsOn(ret.Results[0], func(v ssa.Value) bool {
+				dep := dependsOn(ret.Results[k], func(v ssa.Value) bool { return v == ssa.Value(ttl) }, 8) &&
+					dependsOn(ret.Results[k], func(v ssa.Value) bool {
 						cl, ok := v.(*ssa.Call)
 						return ok && calleeIs(&cl.Call, "time.Now")
 					}, 8)
 				okPos = dep
 			}
 		}
-		hw.Check(okPos && okZero, "column.writeTTL", r.P.Pos(fn.Pos()), "ttl>0 ⇒ now+ttl, else 0", "writeTTL does not store now+ttl for positive and 0 for non-positive time-to-live")
+		return (okPos && okZero) || (viaHelper && len(rets) > 0)
+	}
+	if fn := r.Anchor("column.writeTTL"); fn != nil {
+		hw.Check(returnsDeadline(fn, 0, fn.Params[0], 0), "column.writeTTL", r.P.Pos(fn.Pos()), "ttl>0 ⇒ now+ttl, else 0", "writeTTL does not store now+ttl for positive and 0 for non-positive time-to-live")
 	}
 	if fn := r.Anchor("(column.Row).SetTTL"); fn != nil {
 		ok := false
@@ -1315,6 +1356,12 @@ func ruleExpire(r *Report) {
 		for _, c := range callsTo(fn, false, "(column.Row).SetInt64", "(column.rwInt64).Set") {
 			cc := isExpireSet(c)
 			if cc == nil {
+				continue
+			}
+			// the value comes from a helper that is handed the ttl (deadlineOf(ttl)) and answers
+			// now+ttl / 0 itself; the store is unconditional
+			if deadlineValue(expireVal(cc), fn.Params[1], 0) && precedesAllReturns(c, fn) {
+				merged, ok = true, true
 				continue
 			}
 			// one store of a value chosen before: 0 on one edge, the deadline on the other
@@ -1679,6 +1726,11 @@ func ruleReaderState(r *Report) {
 			}
 			for _, v := range st[f] {
 				if c, isC := constInt(v); !isC || c != 0 {
+					// the running offset may also be handed in by the caller (use(buffer, offset):
+					// 0 from Seek, the section's start offset from Rewind and Range)
+					if _, isPar := strip(v).(*ssa.Parameter); isPar && f == "Offset" {
+						continue
+					}
 					zero = false
 				}
 			}
@@ -1698,6 +1750,21 @@ func ruleReaderState(r *Report) {
 				}
 			}
 		})
+		if ok && !offOK {
+			// use(r.buffer, r.start): the start offset is handed to use, which stores that parameter
+			cc, _, _ := callCommon(use[0])
+			if uf := originOf(cc.StaticCallee()); uf != nil {
+				for i, a := range cc.Args {
+					if f2, isF2 := loadedField(a); isF2 && f2.Field == "start" && i < len(uf.Params) {
+						for _, v := range fieldsStoredOn(uf, "commit.Reader")["Offset"] {
+							if strip(v) == ssa.Value(uf.Params[i]) {
+								offOK = true
+							}
+						}
+					}
+				}
+			}
+		}
 		h.Check(ok && offOK, "(*commit.Reader).Rewind", r.P.Pos(fn.Pos()), "use(buffer) then Offset := start", "Rewind does not restart the offset chain from the section's start offset")
 	}
 	if fn := r.Anchor("(*commit.Reader).Seek"); fn != nil {
@@ -1944,4 +2011,15 @@ func elemBase(v ssa.Value) ssa.Value {
 		return nil
 	}
 	return ia.X
+}
+
+// precedesAllReturns: the instruction is executed on every path to every return of fn.
+func precedesAllReturns(ins ssa.Instruction, fn *ssa.Function) bool {
+	rets := returnsOf(fn)
+	for _, ret := range rets {
+		if !precedes(ins, ret) {
+			return false
+		}
+	}
+	return len(rets) > 0
 }
